@@ -90,6 +90,9 @@ type OpResult struct {
 	At int
 }
 
+// ClockKey is the context key of an optional `func() int64` clock (virtual nanoseconds).
+type ClockKey struct{}
+
 // StampKey is the context key of an optional `func() int` logical clock used to stamp call returns.
 type StampKey struct{}
 
@@ -106,6 +109,8 @@ type Record struct {
 	// EndAt is the logical time when Commit/Rollback returned; BeginAt when the program started.
 	EndAt   int
 	BeginAt int
+	// CommitStart/CommitEnd: harness clock (ClockKey) around the Commit call, in nanoseconds.
+	CommitStart, CommitEnd int64
 }
 
 type opener func(ctx context.Context, name string, tx sop.Transaction) (btree.BtreeInterface[int, string], error)
@@ -217,7 +222,15 @@ func Run(ctx context.Context, p Prog, stores map[string]StoreSpec) *Record {
 		}
 		return rec
 	}
-	if err := tx.Commit(ctx); err != nil {
+	clock, _ := ctx.Value(ClockKey{}).(func() int64)
+	if clock != nil {
+		rec.CommitStart = clock()
+	}
+	err = tx.Commit(ctx)
+	if clock != nil {
+		rec.CommitEnd = clock()
+	}
+	if err != nil {
 		rec.EndErr = err.Error()
 		return rec
 	}
